@@ -184,6 +184,7 @@ type Stats struct {
 	FactPruned     int
 	FreshQueries   int
 	OpaqueInts     int
+	GoSkipped      int
 	SampledClasses int
 	AssertConst    int
 	AssertUnsat    int
@@ -221,6 +222,7 @@ func (s *Stats) merge(o *Stats) {
 	s.FactPruned += o.FactPruned
 	s.FreshQueries += o.FreshQueries
 	s.OpaqueInts += o.OpaqueInts
+	s.GoSkipped += o.GoSkipped
 	s.SampledClasses += o.SampledClasses
 	s.AssertConst += o.AssertConst
 	s.AssertUnsat += o.AssertUnsat
